@@ -106,18 +106,54 @@ EnvGood(W) == W.dev.up /\ W.conns # {} /\ W.dev.failq = << >>
 ClientOwes(W) == \E i \in DOMAIN W.txs : W.txs[i].phase = "Rollback" /\ W.txs[i].rc = Pending
                      /\ \E j \in DOMAIN W.txs : j > i /\ W.txs[j].phase = "Change" /\ W.txs[j].cc = Complete
 
+\* ---- live views: what a reader of a value map sees.  A tombstone hides itself and everything beneath it at path element
+\* boundaries.  The path universe of the behaviours is small and fixed, so "beneath" is a literal relation.
+Under == { <<"/a", "/a/b">>, <<"/a", "/a/c">> }     \* <<p, q>>: q lies beneath p   ("/ab" does NOT lie beneath "/a")
+Live(vals) == LET hidden(q) == vals[q] = Del \/ \E p \in DOMAIN vals : vals[p] = Del /\ <<p, q>> \in Under
+              IN  [q \in {x \in DOMAIN vals : ~hidden(x)} |-> vals[q]]
+\* what the device holds, as a value map restricted to leaves (the device has no tombstones)
+DevLive(W) == W.dev.vals
+
+\* ---- rolling a change back restores exactly the committed configuration that was readable before it was committed
+\* snap[i]: the live committed configuration in the state before change i's commit completed (kept by the exploration /
+\* derived by TLC from the recorded real states)
+C20_RollbackRestores(W, h, snap) ==
+    \A i \in DOMAIN W.txs :
+        (i \in DOMAIN snap /\ W.txs[i].rc = Complete /\ W.cfg.cindex = i /\ W.cfg.cord = W.txs[i].rord) =>
+            Live(W.cfg.cvalues) = snap[i]
+
+\* ---- at rest, with every change applied or rolled back, target connected and synchronized: what is readable in the
+\* committed configuration is what is recorded as applied and what the device holds
+Settled(W) == /\ \A i \in DOMAIN W.txs : Done(W.txs[i])
+              /\ \A i \in DOMAIN W.txs : W.txs[i].cc = Complete =>
+                    \/ W.txs[i].ca = Complete /\ W.txs[i].ra \in {Nil, Complete}
+                    \/ W.txs[i].ra = Complete
+C20_AppliedIsCommitted(W, h, stable) ==
+    (stable /\ EnvGood(W) /\ DevInSync(W) /\ Settled(W)) =>
+        /\ Live(W.cfg.avalues) = Live(W.cfg.cvalues)
+        /\ DevLive(W) = Live(W.cfg.cvalues)
+
 C20_Terminates(W, h, stable) ==
     (stable /\ EnvGood(W) /\ ~ClientOwes(W)) => \A i \in DOMAIN W.txs : Done(W.txs[i])
 
 C20_SyncCompletes(W, h, stable) ==
     (stable /\ EnvGood(W)) => DevInSync(W)
 
-Clauses == {"C20_Order", "C20_CommitBeforeApply", "C20_FailedBlocks", "C20_ConsistencyCommitted",
+\* the snapshots after a step in which the configuration goes from C to C2: a change is committed exactly when the committed
+\* revision moves up to its index (the transaction record may follow in a later step, after a process death)
+NextSnap(snap, C, C2) ==
+    IF C2.crev > C.crev
+    THEN [i \in DOMAIN snap \cup {C2.crev} |-> IF i = C2.crev THEN Live(C.cvalues) ELSE snap[i]]
+    ELSE snap
+
+Clauses == {"C20_RollbackRestores", "C20_AppliedIsCommitted", "C20_Order", "C20_CommitBeforeApply", "C20_FailedBlocks", "C20_ConsistencyCommitted",
             "C20_ConsistencyApplied", "C20_ConsistencyDevice", "C20_Terminates", "C20_SyncCompletes"}
 
-Violated(W, h, stable) ==
+Violated(W, h, stable, snap) ==
     {c \in Clauses :
         CASE c = "C20_Order" -> ~C20_Order(W, h)
+          [] c = "C20_RollbackRestores" -> ~C20_RollbackRestores(W, h, snap)
+          [] c = "C20_AppliedIsCommitted" -> ~C20_AppliedIsCommitted(W, h, stable)
           [] c = "C20_CommitBeforeApply" -> ~C20_CommitBeforeApply(W, h)
           [] c = "C20_FailedBlocks" -> ~C20_FailedBlocks(W, h)
           [] c = "C20_ConsistencyCommitted" -> ~C20_ConsistencyCommitted(W, h)
